@@ -11,12 +11,12 @@ CLAIM = {
             "env.compare/_eq/_lt equals the RFC 9535 2.3.5.2.2 table on Option J (absent equals only absent; < <= > >= only between two numbers or two strings; "
             "deep equality never identifies a boolean with a number), existence tests do not depend on the value found, and filter selection of the model equals "
             "the RFC interpreter with `$` bound to the query argument and `@` to the candidate at every depth. Tied to filter.py/env.py by differential "
-            "execution of the implementation's compiled AST; the comparison table is enumerated completely over a 42-value universe x 6 operators x both operand forms.",
+            "execution of the implementation's compiled AST; the comparison table is enumerated completely over a 46-value universe x 6 operators x both operand forms.",
     "note": "Trusted: Lean kernel; models JP.Query / JP.Rfc9535; Python `re` vs I-Regexp agreement on the generated dialect (regex engine abstract in the theorems, "
             "a small matcher in the driver); renderer harness/qgen.py for the text form.",
     "technique": "Lean 4 refinement proof (filter/compare model vs RFC 9535 typed interpreter) + differential correspondence incl. exhaustive comparison table",
 }
-RULE = ("(1) comparison table: every ordered pair of a 42-value universe (each JSON type, absent, int/float/bool look-alikes, nested containers) x 6 operators "
+RULE = ("(1) comparison table: every ordered pair of a 46-value universe (each JSON type, absent, int/float/bool look-alikes, nested containers) x 6 operators "
         "with query operands, and with a literal on either side for every primitive (complete); (2) generated well-typed logical expressions (depth <= 3; existence tests, "
         "comparisons of literals / singular queries / length,count,value results, match/search, ! && || with explicit and implicit grouping, nested filters using $ and @) "
         "rendered in random spellings x filter documents; non-trivial = the filtered container has at least one child")
@@ -27,7 +27,7 @@ ASSUMPTIONS = ["floats are multiples of 1/8", "documents are trees of dict/list 
 ABSENT = object()
 UNIVERSE = [ABSENT, None, True, False, 0, 1, -1, 2, 1.0, 0.0, 0.5, 2.5, "", "a", "b", "ab", "1", "true", "null", "é",
             [], [1], [True], [1.0], [0], [False], [[1]], [1, 2], [2, 1], ["a"], [None],
-            {}, {"a": 1}, {"a": True}, {"a": 1.0}, {"a": 1, "b": 2}, {"b": 2, "a": 1}, {"a": [1]}, {"a": [True]}, {"a": {"b": None}}, {"b": 1}, {"a": 2}]
+            {}, {"a": 1}, {"a": True}, {"a": 1.0}, {"a": 1, "b": 2}, {"b": 2, "a": 1}, {"a": [1]}, {"a": [True]}, {"a": {"b": None}}, {"b": 1}, {"a": 2}, {"a": None}, {"b": None}, {"b": 5}, {"a": None, "b": 1}]
 OPS = ["==", "!=", "<", "<=", ">", ">="]
 
 
@@ -79,7 +79,7 @@ def gen(ctx):
                     cases.append({"kind": "cmp-lit", "text": f"$[?@.l {op} {rl}]", "doc": [doc]})
                 if ll is not None and rl is not None and ctx.tier != "quick":
                     cases.append({"kind": "cmp-lit", "text": f"$[?{ll} {op} {rl}]", "doc": [doc]})
-    ctx.exhaustive_spaces.append("comparison table: 42 x 42 values x 6 operators, query operands and literal operands")
+    ctx.exhaustive_spaces.append("comparison table: 46 x 46 values x 6 operators, query operands and literal operands")
     # (2) generated expressions
     docs = filter_docs(ctx, 25 if ctx.tier == "quick" else 300)
     nq = 1500 if ctx.tier == "quick" else 25000
